@@ -366,6 +366,9 @@ fn run_a(ops: &[AOp], obs: &mut Obs) -> Result<(), Violation> {
         }
     }
     obs.nontrivial = returned >= 3;
+    if ops.len() > 50 {
+        obs.count("probe.history_of_more_than_50_operations");
+    }
     if stalled_ties > 0 && returned >= 2 {
         obs.count("probe.run_with_instant_ties_and_pops");
     }
@@ -606,6 +609,7 @@ impl World for AgendaWorld {
                 "probe.iteration_bound_reached",
                 "probe.activation_created_and_held_back",
                 "probe.added_in_another_order_than_created",
+                "probe.history_of_more_than_50_operations",
             ],
             quick_runs: 600_000,
             thorough_runs: 12_000_000,
@@ -615,7 +619,11 @@ impl World for AgendaWorld {
     fn generate(&self, _prop: &str, _tier: Tier, rng: &mut Rng) -> AgendaTrace {
         let hash_seed = rng.next_u64();
         if rng.chance(3, 4) {
-            let n = 3 + rng.usize(12);
+            // one run in forty: a long history (60-150 operations over 40 rule names) — a heap of a hundred
+            // activations orders differently from one of five
+            let long = rng.chance(1, 40);
+            let n = if long { 60 + rng.usize(90) } else { 3 + rng.usize(12) };
+            let nrules: u64 = if long { 40 } else { 5 };
             let clock_mode = rng.usize(4); // 0 advancing, 1 stalled runs, 2 minimum step, 3 frozen
             let groups = 1 + rng.usize(3) as u8;
             // one run in three creates some activations first and adds them later, in another order
@@ -631,7 +639,7 @@ impl World for AgendaWorld {
                             AOp::AddHeld(rng.below(4) as u8)
                         } else {
                             AOp::Create(Act {
-                                rule: rng.below(5) as u8,
+                                rule: rng.below(nrules) as u8,
                                 salience: *rng.pick(&sal),
                                 agenda_group: rng.below(groups as u64) as u8,
                                 activation_group: *rng.pick(&[0u8, 0, 0, 1, 2]),
@@ -660,7 +668,7 @@ impl World for AgendaWorld {
                             _ => 0,
                         };
                         AOp::Add(Act {
-                            rule: rng.below(5) as u8,
+                            rule: rng.below(nrules) as u8,
                             salience: *rng.pick(&sal),
                             agenda_group: rng.below(groups as u64) as u8,
                             activation_group: *rng.pick(&[0u8, 0, 0, 1, 2]),
@@ -682,7 +690,7 @@ impl World for AgendaWorld {
                 }
             }
             // drain at the end so that every pending activation is either returned or judged
-            for _ in 0..rng.usize(6) {
+            for _ in 0..(if long { n / 2 } else { rng.usize(6) }) {
                 ops.push(AOp::Next { mark: true });
             }
             AgendaTrace::A { hash_seed, ops }
